@@ -138,11 +138,18 @@ def run(cx):
         def edge_sym(a, bb, subj, labels, o):
             if subj[0] == "discr" and term_has_call(subj[1], "Try::branch"):
                 return "?" + "|".join(sorted(labels))
+            if subj[0] == "discr":
+                r = strip_identity(subj[1])
+                if r[0] == "call" and name_matches(r[1], "anemo::types::request::Request::peer_id") and is_param(r[2][0], "request"):
+                    return "sender=" + "|".join(sorted(labels))
             s = strip_identity(subj)
-            if s[0] == "call" and name_matches(s[1], "HashSet::contains"):
-                return "contains=" + "|".join(sorted(labels))
-            if s[0] == "unop" and s[1] == "Not":
-                return "?cond(not)"
+            neg = False
+            while s[0] == "unop" and s[1] == "Not":
+                neg = not neg
+                s = strip_identity(s[2])
+            if s[0] == "call" and name_matches(s[1], "HashSet::contains") and labels in ({"true"}, {"false"}):
+                val = (labels == {"true"}) != neg
+                return "contains=" + ("true" if val else "false")
             return "?cond"
 
         def stmt_sym(bbi, s, o):
@@ -156,10 +163,15 @@ def run(cx):
             return None
 
         ws = words_of(b, call_sym, edge_sym, stmt_sym)
+        # `peer_id().ok_or_else(|| ISE)?` and `match peer_id() { Some(p) => p, None => return Err(ISE) }` are one table row
+        def canon(w_):
+            w_ = w_.replace("ok_or_else(InternalServerError) ?Break ret=propagate", "sender=None ret=Err(InternalServerError)")
+            return w_.replace("ok_or_else(InternalServerError) ?Continue", "sender=Some")
+        ws = {tuple(canon(fmt_word(w)).split(" ")) for w in ws}
         check_words(ob, b, ws, {
-            "peer_id(request) ok_or_else(InternalServerError) ?Break ret=propagate <return>",
-            "peer_id(request) ok_or_else(InternalServerError) ?Continue contains(self.allowed_peers,sender) contains=true ret=Ok <return>",
-            "peer_id(request) ok_or_else(InternalServerError) ?Continue contains(self.allowed_peers,sender) contains=false ret=Err(NotFound) <return>",
+            "peer_id(request) sender=None ret=Err(InternalServerError) <return>",
+            "peer_id(request) sender=Some contains(self.allowed_peers,sender) contains=true ret=Ok <return>",
+            "peer_id(request) sender=Some contains(self.allowed_peers,sender) contains=false ret=Err(NotFound) <return>",
         }, "AllowedPeers::authorize")
         # the set is the whole iterator; nobody else writes it
         nb = cx.body(f"{AUTH}::AllowedPeers::new")
